@@ -52,6 +52,10 @@ CHECKS = {
    technique="bounded-exhaustive enumeration of every calendar date against an own calendar reference model",
    text="Every day, month-year and year (quick: three 400-year blocks; thorough: all of 1..9999) is run through the real Date.Time/Years/IsBefore/IsAfter/Duration/Minimum/Maximum and compared with own proleptic-Gregorian arithmetic; exhaustive as the property's quantifier states.",
    note="Trusts ref/cal.go (cross-checked against time.Date for every month at start-up). Far-apart order follows from strict day-to-day monotonicity; pairs checked directly up to 40 (quick) / 400 (thorough) days apart."),
+ "C13": dict(engine="E2", category="model_checking", design_ref="§3.2, §4 C13",
+   technique="explicit-state search over API operation histories on the real Document (successor = replay on a fresh instance + one operation), every history up to depth D, with a fresh-decode self-model as oracle",
+   text="From 4 initial documents every history of up to 3 (quick) / 4 (thorough) operations over ~45 operation instances on the colliding pool {I1,I2,I3,F1,F2} - edits (add/delete/replace children, add individuals/families, set/clear husband/wife, add children, delete root records), an explicit warm-all-views operation, and read-only operations (Warnings, String, Compare, SurroundingSimilarity, CompareNodes+Sort, copy-out via DeepCopy/Filter/Flatten, Publish, queries) - is executed on the real code; at the end every derived view (NodesWithTag for every node and tag, Individuals, Families, NodeByPointer, per-individual Names/Events/Families/Spouses/Parents/Children/SpouseChildren, per-family Husband/Wife/Children/HasChild) must equal the same view on a fresh decode of the document's text, and a read-only operation must leave the text unchanged.",
+   note="Histories are not deduplicated (a state is the history that reaches it); failing histories are not extended so the first counter-example is the shortest and later operations are not blamed. Signatures group (operation kind, view family). No random long histories."),
  "C20": dict(engine="E3", category="exploration", design_ref="§4 C20",
    technique="bounded-exhaustive enumeration of skeleton family graphs x all slot assignments with up to k deviations from threshold lattices x all record/child permutations, against an independent reference evaluator of the documented warning conditions",
    text="Skeleton documents (two families sharing a parent with 0-3 children; a 5-record family) with each date/sex slot either at a no-warning default or at a value clearly on one side of a documented threshold; every assignment with up to 2 (quick) / 3 (thorough) deviating slots; all 120 record orders x both child orders of the small skeleton; the multiset of (warning name, people, context) from Document.Warnings() must equal the reference evaluator's.",
